@@ -27,8 +27,9 @@ open Dos.Bn256 Dos.Gen Dos.Gen.Bn256Code Dos.Bn256.CodeTie
 
 /-! ## the translator's own facts -/
 
-/-- the translator covered exactly these Go functions (a new method of the five types or a new function
-of optate.go appears here and has no tie yet; `String`, `gfP2Decode`, `bigFromBase10` are skipped) -/
+/-- the translator covered exactly these Go functions (a new method of the eight types or a new function
+of optate.go / point.go / gfp.go appears here and has no tie yet; what is skipped is the table `skipped`,
+pinned in Props/C10Kyber: formatting, sizes and the byte-level codec, which is property C11's) -/
 theorem translated_functions :
     Bn256Code.translated.map (fun r => r.1) =
       ["gfP2.Set", "gfP2.SetZero", "gfP2.SetOne", "gfP2.IsZero", "gfP2.IsOne", "gfP2.Conjugate", "gfP2.Neg",
@@ -43,7 +44,16 @@ theorem translated_functions :
        "curvePoint.SetInfinity", "curvePoint.Double", "curvePoint.Add", "curvePoint.Mul", "curvePoint.Neg",
        "twistPoint.Set", "twistPoint.MakeAffine", "twistPoint.IsInfinity", "twistPoint.Double", "twistPoint.Add",
        "twistPoint.Mul", "twistPoint.IsOnCurve", "twistPoint.SetInfinity", "twistPoint.Neg",
-       "lineFunctionAdd", "lineFunctionDouble", "mulLine", "miller", "finalExponentiation", "optimalAte"] := by
+       "lineFunctionAdd", "lineFunctionDouble", "mulLine", "miller", "finalExponentiation", "optimalAte",
+       -- point.go (kyber API; `Mul` once per case of its optional point argument) and gfp.go: ties in Props/C10Kyber
+       "newPointG1", "pointG1.Null", "pointG1.Base", "pointG1.Pick", "pointG1.Set", "pointG1.Add", "pointG1.Neg",
+       "pointG1.Sub", "pointG1.Mul", "pointG1.Mul[q=nil]",
+       "newPointG2", "pointG2.Null", "pointG2.Base", "pointG2.Pick", "pointG2.Set", "pointG2.Add", "pointG2.Neg",
+       "pointG2.Sub", "pointG2.Mul", "pointG2.Mul[q=nil]",
+       "newPointGT", "pointGT.Null", "pointGT.Base", "pointGT.Pick", "pointGT.Set", "pointGT.Add", "pointGT.Neg",
+       "pointGT.Sub", "pointGT.Mul", "pointGT.Mul[q=nil]", "pointGT.Finalize", "pointGT.Miller", "pointGT.Pair",
+       "pointGT.PairingCheck",
+       "montEncode", "newGFp", "gfP.Set", "gfP.Invert", "montDecode"] := by
   decide
 
 /-- **alias safety of the code**: for every translated function and every identification of its same-typed
@@ -51,7 +61,7 @@ pointer parameters (receiver = argument, both arguments equal, all three equal),
 those pointers aliased gives textually the no-alias translation with the parameters identified. (This is the
 obligation that the pre-5259913 `Double`, which read `a.y` after storing `c.y`, breaks.) -/
 theorem code_alias_safe :
-    Bn256Code.aliasTable.all (fun r => r.2.2) = true ∧ Bn256Code.aliasTable.length = 84 := by decide
+    Bn256Code.aliasTable.all (fun r => r.2.2) = true ∧ Bn256Code.aliasTable.length = 121 := by decide
 
 /-- the loop of `miller` was unrolled over the digits of `sixuPlus2NAF` as E1 extracts them -/
 theorem miller_unrolled_over_the_naf : Bn256Code.unrolledNAF = Dos.Gen.Bn256.sixuPlus2NAF := by decide
